@@ -3,9 +3,55 @@
 C++ records, TLA+ decides: this module only reshapes the driver's ndjson events into the uniform
 records Mono_Trace.tla (one line per operation) and Mono_Mon.tla (one line per event) read, and
 produces operation sequences (seeded, biased to the boundaries of the code's case split)."""
+import json
+import os
 import re
 
+import vlib
+
 PA, OA, DA, CAP = 128, 368, 248, 15
+
+
+# ----------------------------------------------------------------------------- one-pass trace validation
+class Issue:
+    def __init__(self, exec_index, kind, clause, line):
+        self.exec_index = exec_index   # index into the list of executions
+        self.kind = kind               # "rejected" (no step of the L2 specification) | "invariant"
+        self.clause = clause           # violated clause
+        self.line = line               # 1-based line within the normalised execution
+
+
+def validate(tla, cfg, execs_lines, name, timeout=1800):
+    """Run Mono_Trace / Mono_Mon once over all executions.  Both specifications consume every line and report
+    <<"VERIF", lines consumed, lines, {<<line, clause>>, ...}>>; the first verdict of an execution counts.
+    Returns (accepted, issues, stats)."""
+    d = os.path.join(vlib.BUILD, "traces")
+    os.makedirs(d, exist_ok=True)
+    path = os.path.join(d, "%s.%d.ndjson" % (name, os.getpid()))
+    starts, n = [], 0
+    with open(path, "w") as f:
+        for ex in execs_lines:
+            starts.append(n + 1)
+            for e in ex:
+                f.write(json.dumps(e, separators=(",", ":")) + "\n")
+            n += len(ex)
+    stats = {"states": 0, "wall": 0.0, "lines": n}
+    if n == 0:
+        return 0, [], stats
+    r = vlib.validate_trace(tla, cfg, path, timeout=timeout)
+    stats["states"], stats["wall"] = r.distinct, r.wall
+    m = re.search(r'<<\s*"VERIF",\s*(\d+),\s*(\d+),\s*\{(.*?)\}\s*>>', r.out, re.S)
+    if not m or not r.ok:
+        raise vlib.Broken("trace validation %s failed: %s" % (name, (r.error_trace or r.out)[-3000:]))
+    if int(m.group(1)) < int(m.group(2)) or int(m.group(2)) != n:
+        raise vlib.Broken("trace validation %s consumed %s of %s lines (file has %d)" % (name, m.group(1), m.group(2), n))
+    os.unlink(path)
+    first = {}
+    for line, clause in sorted((int(a), b) for a, b in re.findall(r'<<\s*(\d+),\s*"(\w+)"\s*>>', m.group(3))):
+        j = max(i for i, st in enumerate(starts) if st <= line)
+        if j not in first:
+            first[j] = Issue(j, "rejected" if clause == "drift" else "invariant", clause, line - starts[j] + 1)
+    return len(execs_lines) - len(first), [first[j] for j in sorted(first)], stats
 
 # ----------------------------------------------------------------------------- L1 monitor lines
 DEFM = {"k": "", "t": 0, "op": "", "a": 0, "n": 0, "al": 0, "id": 0, "fn": 0, "r": 0, "u": "", "ok": True, "intact": True,
@@ -159,7 +205,7 @@ def gen_program(rng, P, length):
             # walk up to a 15-entry boundary, then play with the remaining space
             ops.append("am:%d:%d:%d" % (rng.choice([13, 14, 15]), rng.choice([P // 2 + 1, P - 127, P, P + 1]), rng.choice([1, 8])))
             ops.append("x:%d:%d" % (-rng.choice([120, 127, 128, 129, 135, 136, 137]), rng.choice([1, 8])))
-            ops.append("a:%d:%d" % (rng.choice([P - 129, P - 128, P - 127, P - 120, P, 200 if P > 200 else P]), rng.choice([1, 8, 64])))
+            ops.append("a:%d:%d" % (max(0, rng.choice([P - 129, P - 128, P - 127, P - 120, P, 200 if P > 200 else P])), rng.choice([1, 8, 64])))
             continue
         if x < 0.40:
             b = rng.choice(bb) if rng.random() < 0.85 else rng.randint(0, 2 * P + 16)
@@ -168,7 +214,7 @@ def gen_program(rng, P, length):
             ops.append("x:%d:%d" % (rng.choice([-129, -128, -127, -9, -8, -1, 0, 0, 1, 8]), rng.choice([1, 8, 64])))
         elif x < 0.63:
             if style in ("pages", "arrays", "mixed"):
-                ops.append("am:%d:%d:%d" % (rng.choice([2, 5, 13, 14, 15, 16, 29, 31]), rng.choice([1, P // 2 + 1, P - 128, P - 127, P]), rng.choice([1, 8, 64])))
+                ops.append("am:%d:%d:%d" % (rng.choice([2, 5, 13, 14, 15, 16, 29, 31]), max(0, rng.choice([1, P // 2 + 1, P - 128, P - 127, P])), rng.choice([1, 8, 64])))
             else:
                 ops.append("am:%d:%d:%d" % (rng.choice([2, 13, 14, 15, 16, 31]), rng.choice([P + 1, 2 * P, 1]), rng.choice([8, 2 * P])))
         elif x < 0.75:
@@ -248,7 +294,7 @@ FIXED_SHARED = [
 def parse_tlc_programs(out):
     """<<"PROG", P, <<"a:8:8", ...>>>> lines printed by MC_Mono in simulation mode"""
     progs = []
-    for m in re.finditer(r'<<"PROG",\s*(\d+),\s*<<(.*?)>>\s*>>', out, re.S):
+    for m in re.finditer(r'<<\s*"PROG",\s*(\d+),\s*<<(.*?)>>\s*>>', out, re.S):
         toks = re.findall(r'"([^"]+)"', m.group(2))
         if toks:
             progs.append((int(m.group(1)), ".".join(toks)))
